@@ -286,7 +286,7 @@ func hC17Matrix() {
 	services := []*Service{}
 	var lateBare *Service
 	wantErr := true
-	class := verifChoose("class", 27)
+	class := verifChoose("class", 30)
 	switch class {
 	case 0: // valid baseline
 		wantErr = false
@@ -359,6 +359,18 @@ func hC17Matrix() {
 		topts = append(topts, WithRules(&annotations.HttpRule{Selector: "p.S.Get", Pattern: &annotations.HttpRule_Get{Get: "/v1/x"}, ResponseBody: "sub.leaf"}))
 	case 26: // body must be a single field as well
 		topts = append(topts, WithRules(&annotations.HttpRule{Selector: "p.S.Get", Pattern: &annotations.HttpRule_Post{Post: "/v1/x"}, Body: "sub.leaf"}))
+	case 27, 28, 29: // a rule whose selector matches no method, next to a rule that does match (27: after it in
+		// the same rule set, 28: in a later rule set, 29: before it)
+		good := &annotations.HttpRule{Selector: "p.S.Get", Pattern: &annotations.HttpRule_Get{Get: "/v1/{name}"}}
+		bad := &annotations.HttpRule{Selector: []string{"p.S.Nope", "p.T.*", "p.S.Ge"}[verifChoose("unmatched", 3)], Pattern: &annotations.HttpRule_Get{Get: "/v9/x"}}
+		switch class {
+		case 27:
+			topts = append(topts, WithRules(good, bad))
+		case 28:
+			topts = append(topts, WithRules(good), WithRules(bad))
+		default:
+			topts = append(topts, WithRules(bad, good))
+		}
 	case 15: // invalid template / blank pattern
 		if verifChoose("blank", 2) == 1 {
 			topts = append(topts, WithRules(&annotations.HttpRule{Selector: "p.S.Get", Pattern: &annotations.HttpRule_Get{Get: ""}}))
